@@ -420,7 +420,23 @@ func runC03(p *Prog, r *Report) {
 				capIf = ifi
 			}
 		}
+		// ... or written with the builtin: availableTokens = min(availableTokens, burst)
+		var capMin *ssa.Store
+		for _, st := range FieldStores(fn, b.typ, b.avail) {
+			if c, ok := stripConv(st.Val).(*ssa.Call); ok {
+				if bi, ok := c.Common().Value.(*ssa.Builtin); ok && bi.Name() == "min" && len(c.Common().Args) == 2 {
+					x, y := BuildExpr(p, c.Common().Args[0], nil).String(), BuildExpr(p, c.Common().Args[1], nil).String()
+					if (x == A && y == "fld(p0)."+b.burst) || (y == A && x == "fld(p0)."+b.burst) {
+						capMin = st
+					}
+				}
+			}
+		}
 		okCap := false
+		if capMin != nil && capIf == nil {
+			isCapM := func(in ssa.Instruction) bool { return in == ssa.Instruction(capMin) }
+			okCap = ReturnReachableAvoiding(fn, credit, isCapM, nil) == nil
+		}
 		if capIf != nil {
 			// true edge stores avail := burst
 			for _, in := range capIf.Block().Succs[0].Instrs {
@@ -437,8 +453,10 @@ func runC03(p *Prog, r *Report) {
 		// the level is never consulted above burst: the cap is passed on EVERY way through the refill (a roll-back or
 		// a negative amount can raise the level between two refills), except where the bucket does not limit at
 		// all (timePerToken == 0)
-		if capIf != nil {
-			isCap := func(in ssa.Instruction) bool { return in == ssa.Instruction(capIf) }
+		if capIf != nil || capMin != nil {
+			isCap := func(in ssa.Instruction) bool {
+				return (capIf != nil && in == ssa.Instruction(capIf)) || (capMin != nil && in == ssa.Instruction(capMin))
+			}
 			var unlimited []Edge
 			for _, ifi := range ifs(fn) {
 				if cmp, ok := CanonCmp(BuildExpr(p, ifi.Cond, nil)); ok && (cmp.Op == "==" || cmp.Op == "!=") && len(cmp.D.P) == 1 && cmp.Mentions("fld(p0)."+b.tpt) {
@@ -459,7 +477,11 @@ func runC03(p *Prog, r *Report) {
 			}
 			ret := ReturnReachableAvoiding(fn, nil, isCap, limited)
 			r.Paths++
-			r.Check(ret == nil, "C03.R4", what+": the cap is applied on every way through the refill", p.InstrPos(capIf), "with the timePerToken == 0 edge deleted no return is reachable without passing the cap test",
+			var capAt ssa.Instruction = capMin
+			if capIf != nil {
+				capAt = capIf
+			}
+			r.Check(ret == nil, "C03.R4", what+": the cap is applied on every way through the refill", p.InstrPos(capAt), "with the timePerToken == 0 edge deleted no return is reachable without passing the cap test",
 				"the refill can return without capping the level at burst"+posOf(p, ret)+": tokens put back by a roll-back, or gained by a negative amount, stay above the burst until the next credit — more than burst can be admitted at one instant")
 		}
 	}
